@@ -4,7 +4,7 @@ BASE_NOTE = ("Trusted: Coq 8.16.1 kernel (vm_compute for witnesses/examples only
              "the correspondence harness (generators, exact-rational canonicalisation, observation mapping); CPython 3.12/numpy "
              "float64 semantics on the exact (dyadic) input families. The theorems are about the Gallina model; the tie to /repo/src "
              "is the correspondence run on every check (sampled, not proved). ")
-SOURCE_COMMITS = ["bc49a1c", "e3a7f92", "9ed7728", "007ee91", "c29e4c1", "17a47e5", "867807e", "949de5f", "5cc174a", "d64e197", "df761a4", "5d29398", "7a3c11a", "0a21c22", "aeeccf6", "59481a8", "b5aca95", "679700e", "ca2559c", "e1a34e7", "3b48309", "af04624", "d811d2c", "621ca2a", "dac1774", "93d477c", "102736c", "02123fe", "911bb12", "3ef9ffd", "15e9860", "9b7c6c3", "10af766", "15aa013", "cad1090", "07de623", "4bf9c77", "9c0254b", "b710d24", "8e8da8b", "9e7b056", "a4a8ff4", "df1fc35", "225eedd", "002f13e", "2da9632", "35ceb05", "6a01a15", "f3711c2", "2b4f29d", "986482c", "3e97820", "86d8c17"]   # "fix:" commits only (no guarded hooks exist)
+SOURCE_COMMITS = ["bc49a1c", "e3a7f92", "9ed7728", "007ee91", "c29e4c1", "17a47e5", "867807e", "949de5f", "5cc174a", "d64e197", "df761a4", "5d29398", "7a3c11a", "0a21c22", "aeeccf6", "59481a8", "b5aca95", "679700e", "ca2559c", "e1a34e7", "3b48309", "af04624", "d811d2c", "621ca2a", "dac1774", "93d477c", "102736c", "02123fe", "911bb12", "3ef9ffd", "15e9860", "9b7c6c3", "10af766", "15aa013", "cad1090", "07de623", "4bf9c77", "9c0254b", "b710d24", "8e8da8b", "9e7b056", "a4a8ff4", "df1fc35", "225eedd", "002f13e", "2da9632", "35ceb05", "6a01a15", "f3711c2", "2b4f29d", "986482c", "3e97820", "86d8c17", "fcacfc0", "94d6ae0", "bbf0167", "3836edd", "aca11d8", "78a437a", "4732675", "811491b", "ebe9183", "db19043", "a2108fd", "29fb3c3", "1a1df06", "d27c9ab", "d20d771", "d543b2b", "249da10", "b4eb3c9", "5ffe4db", "36ea95c", "dec93b6", "24862f2", "f398ee8"]   # "fix:" commits only (no guarded hooks exist)
 NOTES = ("Every check: (1) rebuilds the Coq development incrementally and re-checks coq/Props/<id>.v (grep gate for Admitted/Axiom/...); "
          "(2) runs physt from /repo/src and the extracted model on the same seeded cases; (3) applies the extracted check_<id> to the "
          "implementation's observation. VIOLATION lines carry a replay file; 'no-failing-input-found' is appended when only the "
@@ -254,3 +254,24 @@ CLAIMED = {
          "to physt's own output."),
    note=BASE_NOTE + "Modelled, not verified: numpy slicing/+= inside _apply_bin_map, copy() on the non-inplace path."),
 }
+
+
+# second tie (DESIGN.md 0.9): theorems about the functions that tools/pytrans.py regenerates from /repo's current source on every build
+TIE = {
+ "C04": ("Tie by translation (coq/Props/C04_tie.v, re-checked on every run against coq/Gen/PyFW.v = the current source of "
+         "FixedWidthBinning.first_edge / last_edge / _cover_value / _drop_unneeded_bins / _force_bin_existence_single translated by "
+         "tools/pytrans.py): C04_tie_code_is_model - in exact arithmetic the translated code returns exactly the model's force_single for "
+         "every grid, value and fuel >= 1 (the repair loops never iterate); C04_tie_value_covered_whatever_the_rounding - for ANY float "
+         "arithmetic obeying four order laws (true of IEEE-754), whenever the code returns for a finite value, the value lies inside the "
+         "edges as the code computes them (loop invariants through both while loops)."),
+ "C06": ("Tie by translation (coq/Props/C06_tie.v against coq/Gen/PyStats.v = the current source of Statistics.__mul__ / mean): the "
+         "translated __mul__ is the model's stats_mul; the translated mean is invariant under any non-zero factor."),
+ "C10": ("Tie by translation (coq/Props/C10_tie.v against coq/Gen/PyMerge.v = the two bin-map builders inside the current source of "
+         "HistogramBase.merge_bins): the translated list comprehension and min_frequency loop are the model's amount_map and mf_map for "
+         "every bin count, amount, list of frequencies and threshold."),
+ "C14": ("Tie by translation (coq/Props/C14_tie.v against coq/Gen/PyStats.v = the current source of physt/statistics.py): the "
+         "translated Statistics.__add__, INVALID_STATISTICS, mean and variance are the model's stats_add, invalid_stats, st_mean, st_var."),
+}
+TIE_TECHNIQUE = " + tie by translation: Python->Gallina translator re-run on the current source, equivalence to the model proved for all inputs"
+TIE_NOTE = (" The translator tools/pytrans.py (fail-closed Python-ast -> Gallina, subset and typing rules in DESIGN.md 0.9) and its kernel "
+            "table (which attributes are state, which are caches) are trusted for the tie theorems.")
